@@ -116,6 +116,12 @@ func (r *R) battery(ctx sdk.Context, mod string) string {
 	fork, _ := ctx.CacheContext()
 	r.setDefaults(fork, mod)
 	res := r.runBattery(fork, mod)
+	// the same stored set met by a state that was built BEFORE it was stored (C16: "each operation that is
+	// possible under the defaults still ends in success or an ordinary rejection" — reachable states include
+	// those created under the previous parameters)
+	fork2, _ := ctx.CacheContext()
+	r.setDefaults(fork2, mod)
+	res = append(res, r.runCarry(fork2, mod)...)
 	var pan []string
 	for _, e := range res {
 		r.Stats["bat."+mod+"."+e[0]+"."+e[1]]++
@@ -145,6 +151,17 @@ func (r *R) runBattery(ctx sdk.Context, mod string) [][2]string {
 		b.token()
 	default:
 		hx.Fail("unknown module %q", mod)
+	}
+	return b.res
+}
+
+// runCarry builds module state under a moderate variant of the stored set, then switches to the stored set
+// and runs follow-up operations against that state (operation names `carry_*`).
+func (r *R) runCarry(ctx sdk.Context, mod string) [][2]string {
+	b := &run{r: r, ctx: ctx}
+	switch mod {
+	case "htlc":
+		b.htlcCarry()
 	}
 	return b.res
 }
@@ -260,6 +277,110 @@ func (b *run) htlc() {
 	}
 	b.ctx = hx.WithBlock(b.ctx, h0+50, blockTime(h0+50))
 	b.hook("expire", func() { htlcmod.BeginBlocker(b.ctx, k) })
+}
+
+// htlcCarry: open and completed transfers of the first asset are created while its limits are generous and
+// its switches on; then the stored set takes over (lower limits, time limits, deactivation, other fee and
+// amount bounds) and the pending objects are claimed, refunded and followed by new transfers.
+func (b *run) htlcCarry() {
+	k := b.r.env.HTLC
+	stored := k.GetParams(b.ctx)
+	if len(stored.AssetParams) == 0 {
+		return
+	}
+	// an asset becomes usable only with a supply record, and those are created by genesis import alone
+	ai := -1
+	for i, a := range stored.AssetParams {
+		if _, found := k.GetAssetSupply(b.ctx, a.Denom); found {
+			ai = i
+			break
+		}
+	}
+	if ai < 0 {
+		// as if the chain's genesis had listed the first asset with empty supplies
+		ai = 0
+		z := sdk.NewCoin(stored.AssetParams[0].Denom, sdkmath.ZeroInt())
+		k.SetAssetSupply(b.ctx, htlctypes.NewAssetSupply(z, z, z, z, 0), z.Denom)
+		b.r.Stats["carry.htlc.supply-record-created"]++
+	}
+	as := stored.AssetParams[ai]
+	deputy, err := sdk.AccAddressFromBech32(as.DeputyAddress)
+	if err != nil {
+		return
+	}
+	user := hx.Acc(1)
+	if deputy.Equals(user) {
+		user = hx.Acc(2)
+	}
+	pre := htlctypes.Params{AssetParams: append([]htlctypes.AssetParam{}, stored.AssetParams...)}
+	big := sdkmath.NewInt(1).MulRaw(1000000000000)
+	pre.AssetParams[ai] = htlctypes.AssetParam{Denom: as.Denom, Active: true, DeputyAddress: as.DeputyAddress,
+		SupplyLimit:   htlctypes.SupplyLimit{Limit: big, TimeLimited: false, TimePeriod: as.SupplyLimit.TimePeriod, TimeBasedLimit: sdkmath.ZeroInt()},
+		FixedFee:      sdkmath.NewInt(1), MinSwapAmount: sdkmath.NewInt(2), MaxSwapAmount: big, MinBlockLock: 50, MaxBlockLock: 34560}
+	if pre.Validate() != nil || k.SetParams(b.ctx, pre) != nil {
+		b.r.Stats["carry.htlc.skipped"]++
+		return
+	}
+	ts := uint64(b.ctx.BlockTime().Unix())
+	amt := func(n int64) sdk.Coins { return sdk.Coins{sdk.Coin{Denom: as.Denom, Amount: sdkmath.NewInt(n)}} }
+	mk := func(sec string, from, to sdk.AccAddress, n int64, lock uint64) (*htlctypes.MsgCreateHTLC, string) {
+		hl, hls := hashLock(sec, ts)
+		return &htlctypes.MsgCreateHTLC{Sender: from.String(), To: to.String(), ReceiverOnOtherChain: "r", SenderOnOtherChain: "s",
+			Amount: amt(n), HashLock: hls, Timestamp: ts, TimeLock: lock, Transfer: true}, htlctypes.GetID(from, to, amt(n), hl).String()
+	}
+	sA, sB, sC, sD, sE, sF := strings.Repeat("a1", 32), strings.Repeat("b2", 32), strings.Repeat("c3", 32), strings.Repeat("d4", 32), strings.Repeat("e5", 32), strings.Repeat("f6", 32)
+	inA, idA := mk(sA, deputy, user, 5000, 50)   // claimed before the switch: current supply 5000
+	inB, idB := mk(sB, deputy, user, 3000, 50)   // open across the switch, claimed afterwards
+	inC, _ := mk(sC, deputy, user, 2000, 50)     // open across the switch, expires afterwards
+	outD, idD := mk(sD, user, deputy, 1500, 60)  // outgoing, open across the switch, claimed afterwards
+	outE, _ := mk(sE, user, deputy, 1000, 50)    // outgoing, open across the switch, refunded at expiry
+	for _, m := range []*htlctypes.MsgCreateHTLC{inA, inB, inC} {
+		if out := b.r.env.Deliver(b.ctx, m); out.Class != hx.OK {
+			if os.Getenv("VERIF_DEBUG") != "" {
+				fmt.Fprintf(os.Stderr, "debug: carry setup -> %s %s\n", out.Class, out.Err)
+			}
+			b.r.Stats["carry.htlc.setup-failed"]++
+			return
+		}
+	}
+	if b.r.env.Deliver(b.ctx, &htlctypes.MsgClaimHTLC{Sender: user.String(), Id: idA, Secret: sA}).Class != hx.OK {
+		b.r.Stats["carry.htlc.setup-failed"]++
+		return
+	}
+	for _, m := range []*htlctypes.MsgCreateHTLC{outD, outE} {
+		if b.r.env.Deliver(b.ctx, m).Class != hx.OK {
+			b.r.Stats["carry.htlc.setup-failed"]++
+			return
+		}
+	}
+	b.next()
+	if p, _ := hx.NoPanic(func() { htlcmod.BeginBlocker(b.ctx, k) }); p {
+		b.r.Stats["carry.htlc.setup-failed"]++
+		return
+	}
+	// the stored set takes over
+	if err := k.SetParams(b.ctx, stored); err != nil {
+		hx.Fail("carry: stored set refused: %v", err)
+	}
+	b.r.Stats["carry.htlc.run"]++
+	b.next()
+	b.hook("carry_begin_block", func() { htlcmod.BeginBlocker(b.ctx, k) })
+	b.msg("carry_claim_in", &htlctypes.MsgClaimHTLC{Sender: user.String(), Id: idB, Secret: sB})
+	b.msg("carry_claim_out", &htlctypes.MsgClaimHTLC{Sender: deputy.String(), Id: idD, Secret: sD})
+	ts = uint64(b.ctx.BlockTime().Unix())
+	newIn, _ := mk(sF, deputy, user, 2500, as.MinBlockLock)
+	b.msg("carry_new_in", newIn)
+	newIn2, _ := mk(strings.Repeat("07", 32), deputy, user, 7, as.MinBlockLock)
+	b.msg("carry_new_in_small", newIn2)
+	newOut, _ := mk(strings.Repeat("08", 32), user, deputy, 1200, as.MaxBlockLock)
+	b.msg("carry_new_out", newOut)
+	b.next()
+	b.hook("carry_begin_block2", func() { htlcmod.BeginBlocker(b.ctx, k) })
+	h := b.ctx.BlockHeight()
+	for i := int64(0); i < 3; i++ { // the expiry heights of C and E (created at the first carry height, lock 50)
+		b.ctx = hx.WithBlock(b.ctx, h+47+i, blockTime(h+47+i))
+		b.hook(fmt.Sprintf("carry_expire%d", i), func() { htlcmod.BeginBlocker(b.ctx, k) })
+	}
 }
 
 // ---------------------------------------------------------------- service
